@@ -13,9 +13,9 @@ import (
 func init() {
 	register(&CheckSpec{
 		ID: "C07", Fn: c07,
-		Rule:        "one evaluation = one mate/stalemate classification observed through the verif hook inside search/qsearch (position FEN handed to refchess: legal-move count and in-check status), over searches of blocked-pawn / zugzwang / few-move / ordinary positions at depth 3-8 under the default configuration and random combinations of the pruning switches (FP, LMP, LMR, null move, razoring, RFP, QFP); plus terminal roots through the public result; distinct = distinct classified positions (FEN identity, kind); in 40% of the random-pruning searches the remaining switches are varied too (hash table on/off and its sub-switches, PVS, killers, history, counter moves, MDP, extensions, IID with IIDDepth 2-6 so that it runs at these depths)",
+		Rule:        "one evaluation = one mate/stalemate classification observed through the verif hook inside search/qsearch (position FEN handed to refchess: legal-move count and in-check status), over searches of blocked-pawn / zugzwang / few-move / ordinary positions at depth 3-8 under the default configuration and random combinations of the pruning switches (FP, LMP, LMR, null move, razoring, RFP, QFP); plus terminal roots through the public result; distinct = distinct classified positions (FEN identity, kind); in 40% of the random-pruning searches the remaining switches are varied too (hash table on/off and its sub-switches, PVS, killers, history, counter moves, MDP, extensions, IID with IIDDepth 2-6 so that it runs at these depths); a fifth of the roots carry a half-move clock of 94-99 and a fifth a history of repeated positions (moves answered by the draw shortcut without a child search)",
 		Assumptions: []string{"the hook only reads the position; refchess decides legality", "a classification is only made when the search was not stopped (the engine's own guard)"},
-		Required:    []string{"searches", "classifications", "mate_classifications", "stalemate_classifications", "qsearch_mate_classifications", "searches_all_pruning_on", "searches_random_pruning", "terminal_roots", "searches_with_fp_prunings", "searches_other_switches_varied", "searches_with_iid"},
+		Required:    []string{"searches", "classifications", "mate_classifications", "stalemate_classifications", "qsearch_mate_classifications", "searches_all_pruning_on", "searches_random_pruning", "terminal_roots", "searches_with_fp_prunings", "searches_other_switches_varied", "searches_with_iid", "roots_fifty_move_edge", "roots_with_cycle_history"},
 		MinEvals:    1000,
 		TimeoutQ:    15 * 60e9,
 	})
@@ -155,8 +155,32 @@ func c07(c *Ctx) {
 		if r.Chance(0.7) {
 			s.NewGame()
 		}
-		rep.Begin(fmt.Sprintf("search %s depth %d %s", curRoot, depth, curCfg))
 		p := engPos(curRoot)
+		switch hk := r.Intn(10); {
+		case hk < 2:
+			// the fifty-move rule inside the horizon: every quiet reply is an immediate draw
+			fb := *b0
+			fb.Half, fb.Ep = 94+r.Intn(6), -1
+			if fb.Full < 60 {
+				fb.Full = 60
+			}
+			if fb.Validate() == nil {
+				curRoot = fb.FEN()
+				p = engPos(curRoot)
+				rep.Inc("roots_fifty_move_edge")
+			}
+		case hk < 4:
+			// a history full of repeated positions: replies that repeat are immediate draws
+			steps := buildCycleGame(r, b0, 8+r.Intn(24), rep)
+			if len(steps) > 0 && len(steps[len(steps)-1].After.Legal()) > 0 {
+				for _, st := range steps {
+					p.DoMove(toEng(st.Move))
+				}
+				curRoot = fmt.Sprintf("%s + %d plies of cycles -> %s", b0.FEN(), len(steps), steps[len(steps)-1].After.FEN())
+				rep.Inc("roots_with_cycle_history")
+			}
+		}
+		rep.Begin(fmt.Sprintf("search %s depth %d %s", curRoot, depth, curCfg))
 		runSearch(s, p, search.Limits{Depth: depth, Nodes: uint64(c.Size(150000, 400000))})
 		rep.Inc("searches")
 		if s.Statistics().FpPrunings > 0 {
